@@ -35,7 +35,9 @@ GEN_GROUPS = ["Units", "IndexPy", "EngineCpp", "KineticsPy"]
 RULE = ("pairs (d, rescale σ d): d a random script description (systems as in C01, units declared / inherited / 'default' at every "
         "level), σ a random choice per nesting level of {keep, declare a new system drawn from all 11x10x10, drop the declaration} "
         "and per bare number of {re-scale, replace by an explicit unit string in yet another system, incl. L / M forms}; compared: "
-        "state, chemostats, compute_dstatedt in two random output systems, 4 Euler steps; a pair is non-trivial when at least one "
+        "state, chemostats, compute_dstatedt in two random output systems, 4 Euler steps; size-1 systems with a reaction of order 0 "
+        "or >= 2: RDSystem.make_dxdtf(units_system=U) for two U whose space unit differs from the system's own, on both members, "
+        "against the rate law and compute_dstatedt; a pair is non-trivial when at least one "
         "level's resolved system differs between the members; distinct by (description fingerprint, σ)")
 ASSUMPTIONS = C1.ASSUMPTIONS + ["re-scaled bare numbers are rounded to the nearest double (1e-16 relative), far below the 1e-9 comparison tolerance"]
 TRUSTED = C1.TRUSTED
@@ -304,7 +306,7 @@ def member(sd, U1, nsteps):
     return out
 
 
-def gen_script_desc(ctx, rng, k):
+def gen_script_desc(ctx, rng, k, max_cells=None):
     kind = "grid" if k % 2 == 0 else "graph"
     sd = {"t_sample": [0], "sampling_policy": "on_iteration", "rng_seed": 1}
     r = rng.random()
@@ -317,7 +319,7 @@ def gen_script_desc(ctx, rng, k):
     else:
         us = L.DEFAULT_SYS
     # the system inherits the script's units system wherever it declares none
-    desc, phys, info = L.gen_system(rng, kind=kind, max_cells=ctx.n(6, 12), chem_p=0.25, p_explicit=0.25, parent=us)
+    desc, phys, info = L.gen_system(rng, kind=kind, max_cells=max_cells or ctx.n(6, 12), chem_p=0.25, p_explicit=0.25, parent=us)
     sd["system"] = desc
     if rng.random() < 0.3:
         # an explicit bare state list, in the system's units system
@@ -335,9 +337,119 @@ def gen_script_desc(ctx, rng, k):
     return sd, phys
 
 
+
+# ------------------------------------------------------------------------------------------------ make_dxdtf(units_system=U)
+def nonlinear(phys):
+    """does the network have a reaction channel of order 0 or >= 2 with a non-zero constant (where the cell volume matters)?"""
+    for r in phys["reacs"]:
+        if (sum(r["sub"]) != 1 and any(k != 0 for k in r["kf"])) or (sum(r["prod"]) != 1 and any(k != 0 for k in r["kr"])):
+            return True
+    return False
+
+
+def dxdtf_si(system, U):
+    """rate of change through RDSystem.make_dxdtf(units_system=U), evaluated at the system's own state, in SI
+    (molecule/s); returns (rates, state used in SI) or ("error", name)"""
+    fq, fr = L.si_factor(U, L.D_QTY), L.si_factor(U, L.D_RATE)
+    x_si = L.state_si(system.state)
+    xU = [float(v / fq) for v in x_si]
+    try:
+        f = system.make_dxdtf(units_system=L.us_obj(U))
+        out = [float(v) for v in f(0.0, list(xU))]
+    except Exception as ex:  # noqa
+        return ("error", type(ex).__name__), None
+    if not all(abs(v) < 1e250 for v in out + xU):
+        return ("overflow",), None
+    return [Fraction(v) * fr for v in out], [Fraction(v) * fq for v in xU]
+
+
+def check_dxdtf_pair(ctx, case):
+    """the same physical size-1 system written twice (A, B = rescaled A): make_dxdtf requested in U1 on A and in U2 on B,
+    and kinetics.compute_dstatedt in U3, must all give the rate law's value once expressed in SI"""
+    import strengths.kinetics as kin
+    phys = C1.phys_load(case["phys"])
+    U1, U2, U3 = tuple(case["U1"]), tuple(case["U2"]), tuple(case["U3"])
+    try:
+        sa, sb = build_script(case["A"]).system, build_script(case["B"]).system
+    except Exception as ex:  # noqa
+        ctx.violation("units:member-raises", "the description raised %s: %s" % (type(ex).__name__, str(ex)[:160]), case, impl=type(ex).__name__)
+        return
+    results = []
+    for tag, system, U in (("A", sa, U1), ("A", sa, U2), ("B", sb, U2), ("B", sb, U1)):
+        out, x_si = dxdtf_si(system, U)
+        if out and out[0] == "overflow":
+            ctx.count("dxdtf_overflow_skipped")
+            continue
+        if out and out[0] == "error":
+            ctx.violation("units:dxdtf-raises", "make_dxdtf(units_system=%s) raised %s on a system of size 1" % (list(U), out[1]), dict(case, member=tag, U=list(U)), impl=out[1])
+            return
+        chem = [int(v) for v in system.chemostats]
+        orc = L.oracle_rate(phys, x_si)
+        for s, x in enumerate(out):
+            exp, mag = (Fraction(0), Fraction(0)) if chem[s] else orc[s]
+            if abs(x - exp) > Fraction(TOL) * max(abs(x), abs(exp), mag):
+                own = L.sys_of(system.units_system)
+                ctx.violation("units:dxdtf-physical", "make_dxdtf(units_system=%s) on member %s (own units %s): entry %d is %s molecule/s, the rate law on the "
+                              "described physical system gives %s" % (list(U), tag, list(own), s, common.fstr(x), common.fstr(exp)),
+                              dict(case, member=tag, U=list(U), s=s), impl=common.fstr(x), expected=common.fstr(exp))
+                return
+        results.append((tag, U, out, orc))
+    # the two requested systems / the two descriptions against each other, and against compute_dstatedt
+    for (t1, u1, o1, orc), (t2, u2, o2, _) in zip(results, results[1:]):
+        for s, (x, y) in enumerate(zip(o1, o2)):
+            if abs(x - y) > Fraction(TOL) * max(abs(x), abs(y), orc[s][1]):
+                ctx.violation("units:dxdtf-pair", "make_dxdtf entry %d: %s molecule/s (member %s, requested %s) vs %s (member %s, requested %s)"
+                              % (s, common.fstr(x), t1, list(u1), common.fstr(y), t2, list(u2)), dict(case, s=s), impl=common.fstr(y), expected=common.fstr(x))
+                return
+    try:
+        arr = kin.compute_dstatedt(sa, None, True, L.us_obj(U3))
+        f3 = L.si_factor(L.sys_of(arr.units.sys), L.dim_of(arr.units.dim))
+        ds = [Fraction(float(v)) * f3 for v in arr.value]
+    except Exception as ex:  # noqa
+        ds = None
+    if ds is not None and results:
+        t1, u1, o1, orc = results[0]
+        for s, (x, y) in enumerate(zip(o1, ds)):
+            if abs(x - y) > Fraction(TOL) * max(abs(x), abs(y), orc[s][1]):
+                ctx.violation("units:dxdtf-vs-dstate", "entry %d: make_dxdtf(units_system=%s) gives %s molecule/s, compute_dstatedt(units_system=%s) gives %s"
+                              % (s, list(u1), common.fstr(x), list(U3), common.fstr(y)), dict(case, s=s), impl=common.fstr(x), expected=common.fstr(y))
+                return
+
+
+def dxdtf_stream(ctx, n):
+    """size-1 systems with at least one reaction channel of order 0 or >= 2 (where the cell volume enters), requested unit
+    systems whose space unit differs from the system's own"""
+    rng = ctx.rng
+    for k in range(n):
+        if C1.out_of_time(ctx):
+            break
+        for _ in range(30):
+            sdA, phys = gen_script_desc(ctx, rng, k, max_cells=1)
+            if phys["n"] == 1 and nonlinear(phys):
+                break
+        else:
+            continue
+        R = Rescaler(rng)
+        sdB = R.script(sdA)
+        own = resolve(sdA["system"].get("units"), resolve(sdA.get("units"), L.DEFAULT_SYS, script_level=True))
+        U1 = L.rand_sys(rng)
+        while U1[0] == own[0]:
+            U1 = L.rand_sys(rng)
+        U2 = L.rand_sys(rng)
+        while U2[0] == U1[0]:
+            U2 = L.rand_sys(rng)
+        case = {"kind": "dxdtf_pair", "A": sdA, "B": sdB, "U1": list(U1), "U2": list(U2), "U3": list(L.rand_sys(rng)), "phys": C1.phys_dump(phys)}
+        ctx.case(("dxdtf", C1.fingerprint(sdA), U1, U2), nontrivial=True,
+                 sample={"op": "make_dxdtf", "own_units": list(own), "U1": list(U1), "U2": list(U2)})
+        ctx.count("dxdtf_pairs")
+        ctx.count("dxdtf_orders_" + ",".join(sorted({str(sum(r[side])) for r in phys["reacs"] for side in ("sub", "prod")})))
+        check_dxdtf_pair(ctx, case)
+
+
 def run(ctx):
     rng = ctx.rng
     C1.out_of_time(ctx)          # start the harness clock
+    dxdtf_stream(ctx, ctx.n(60, 1500))
     npairs = ctx.n(70, 1500)
     NSTEPS = 4
     ops, meta = [], []
@@ -528,6 +640,7 @@ def replay(ctx, rec):
     class Rec:
         def __init__(self):
             self.v = []
+            self.notes = []
         def violation(self, key, what, case, impl=None, expected=None, replay_cmd=None):
             self.v.append({"key": key, "what": what})
         def case(self, *a, **k):
@@ -535,6 +648,9 @@ def replay(ctx, rec):
         def count(self, *a, **k):
             pass
     rec_ = Rec()
+    if case["kind"] == "dxdtf_pair":
+        check_dxdtf_pair(rec_, case)
+        return not rec_.v, {"failures": rec_.v}
     try:
         a = member(case["A"], tuple(case["U1"]), case["nsteps"])
         b = member(case["B"], tuple(case["U2"]), case["nsteps"])
